@@ -461,7 +461,7 @@ class Phase(Angle):
                 frac += 1
                 count -= 1
 
-            if frac < 0.25:
+            if frac < 0.25 and func is str:
                 # Ensure that we do not get 1e-16, etc., yet can use numpy's
                 # guarantee that the right number of digits is shown.
                 frac_str = func(frac + 0.25)
